@@ -332,4 +332,16 @@ AllDone == Fin => \A w \in Workers : wpc[w] = "done"
 \* liveness: with a live client the run always ends (termination)
 Terminates == <>Fin
 Settles == <>[]Quiescent
+
+\* coverage sanity (TLC's -coverage does not split the disjuncts under \E w): each of these action properties
+\* is EXPECTED TO BE VIOLATED - the named action is taken in some behaviour (checked when the spec changes)
+NeverWTop        == [][~\E w \in Workers : WTop(w)]_vars
+NeverPipeHandoff == [][~\E w \in Workers : PipeHandoff(w)]_vars
+NeverWRecvEnd    == [][~\E w \in Workers : WRecvEnd(w)]_vars
+NeverWFilter     == [][~\E w \in Workers : WFilter(w)]_vars
+NeverWCancel     == [][~\E w \in Workers : WCancel(w)]_vars
+NeverWSend       == [][~\E w \in Workers : WSend(w)]_vars
+NeverWSendEnd    == [][~\E w \in Workers : WSendEnd(w)]_vars
+NeverWExit       == [][~\E w \in Workers : WExit(w)]_vars
+NeverRSelDone    == [][~RSelDone]_vars
 =============================================================================
